@@ -271,6 +271,8 @@ func plan() []group {
 		{"enc-types", 500 * s, runEncTypes},
 		{"meta-gen", 1500 * s, runMetaGen},
 		{"config-gen", 1500 * s, runConfigGen},
+		{"config-input", 500 * s, runConfigInput},
+		{"config-concurrent", mon.Pick(70, 280), runConfigConcurrent},
 		{"misc-gen", 1000 * s, runMiscGen},
 	}
 }
@@ -293,7 +295,8 @@ func TestCheck(t *testing.T) {
 		"enc.Decrypt.returned_ok", "enc.Decrypt.returned_error", "enc.decrypt.stream_ok", "enc.decrypt.stream_error", "enc.forged_header_accepted", "readers.source_shapes_run", "readers.short_first_read",
 		"enc.Manifest.Validate.returned_ok", "enc.Cipher.UnmarshalJSON.returned_ok", "enc.KeyAlgorithm.UnmarshalJSON.returned_error",
 		"metadata.DecodeMetadata.returned_ok", "metadata.DecodeMetadata.returned_error", "metadata.Duration.UnmarshalJSON.returned_ok",
-		"config.Decode.returned_ok", "config.Decode.returned_error", "config.Normalize.returned_error", "config.PrefixedBy.returned_ok",
+		"config.Decode.returned_ok", "config.Decode.returned_error", "config.Normalize.returned_error", "config.PrefixedBy.returned_ok", "config.input_compared_after_call", "config.concurrent_cases", "config.concurrent_calls",
+		"retry.DecodeConfig.returned_ok", "retry.DecodeConfigWithPrefix.returned_ok", "retry.DecodeConfigWithPrefix.returned_error",
 		"streams.UppercaseTransformer.returned_ok", "utils.GetPEM.returned_ok", "utils.GetPEM.returned_error",
 	})
 	initFixtures()
